@@ -130,7 +130,7 @@ func c03HTTP(r *ev.Result) {
 	n := 0
 	for _, kind := range []string{"uni", "io"} {
 		for cname, sizes := range chunkings {
-			for _, ending := range []string{"eof", "close"} {
+			for _, ending := range []string{"eof", "close", "cut-mid-chunk"} {
 				w, err := hworld.Start(hworld.Config{})
 				if nil != err {
 					ev.Broken("%s", err)
@@ -160,6 +160,39 @@ func c03HTTP(r *ev.Result) {
 				}
 				if "" != rest {
 					out.Send(chunk(rest))
+				}
+				if "cut-mid-chunk" == ending {
+					/* The connection dies inside a chunk (a FIN, so that
+					everything sent stays readable): what had arrived of
+					that chunk was sent before the end, and is shown.
+					(net/http hands such a piece to the handler only when
+					the connection has ended: together with the error, and
+					after cancelling the request's context.) */
+					const tailPiece = "TAIL-PIECE-OF-A-CHUNK-THAT-NEVER-ENDS"
+					out.Send(fmt.Sprintf("%x\r\n%s", len(tailPiece)+500, tailPiece))
+					out.C.CloseWrite()
+					want := data + tailPiece
+					shown := ""
+					_, ok := w.WaitNotice(func(cl opshell.CLine) bool {
+						if cl.Plain {
+							shown += cl.Line
+						}
+						return strings.Contains(cl.Line, "Shell is gone")
+					})
+					switch {
+					case !ok:
+						v("not-torn-down", "the output connection was cut, no 'gone' notice followed")
+					case shown != want && strings.HasPrefix(want, shown):
+						r.Violate(ev.Violation{Signature: "http/output-lost-at-connection-cut/" + kind, Kind: "c03http", Replay: map[string]string{"http_seam": kind + "/" + cname + "/" + ending},
+							What: fmt.Sprintf("%s shell, chunking %s: the client sent %d bytes and then its connection ended (FIN) in the middle of a chunk; the operator was shown the first %d bytes only before the shell was declared gone (missing: %q)", kind, cname, len(want), len(shown), trunc80(want[len(shown):]))})
+					case shown != want:
+						v("output-changed", fmt.Sprintf("displayed %q, sent %q", trunc80(tail(shown, 70)), trunc80(tail(want, 70))))
+					}
+					n++
+					in.Close()
+					out.Close()
+					w.Stop()
+					continue
 				}
 				if "eof" == ending {
 					out.Send("0\r\n\r\n")
